@@ -1742,6 +1742,10 @@ class GroupBy:
 
         return_polars = self._values_is_polars(type_list)
 
+        def _take_rows(arr, indexer):
+            # by position: `series[int_array]` would look the positions up as labels
+            return arr.iloc[indexer] if isinstance(arr, pd.Series) else arr[indexer]
+
         if index_by_groups:
             indexer = self._group_sort_indexer
             result_index = self._build_group_sorted_index(common_index)
@@ -1760,8 +1764,8 @@ class GroupBy:
                 values=_val_to_numpy(val_arr)[indexer],
                 alpha=alpha,
                 halflife=halflife,
-                times=None if times is None else times[indexer],
-                mask=None if mask is None else mask[indexer],
+                times=None if times is None else _take_rows(times, indexer),
+                mask=None if mask is None else _take_rows(mask, indexer),
             )
             .args
             for val_arr in value_list
